@@ -26,15 +26,12 @@ theorem splitlines_nl (cs : List Char) : splitlines ('\n' :: cs) = [] :: splitli
   rw [splitlines.eq_def]
   simp [isLineSep]
 
-theorem splitlines_nosep (c : Char) (cs : List Char) (h : isLineSep c = false) :
-    splitlines (c :: cs) = match splitlines cs with
-      | [] => [[c]]
-      | l :: ls => (c :: l) :: ls := by
+theorem splitlines_nosep_nil (c : Char) (cs : List Char) (h : isLineSep c = false) (hcs : splitlines cs = []) :
+    splitlines (c :: cs) = [[c]] := by
   have hr : c ≠ '\r' := by intro hc; subst hc; simp [isLineSep] at h
   rw [splitlines.eq_def]
   split
   all_goals first
-    | rfl
     | (simp_all; done)
     | (rename_i heq
        simp only [List.cons.injEq] at heq
@@ -42,23 +39,38 @@ theorem splitlines_nosep (c : Char) (cs : List Char) (h : isLineSep c = false) :
     | (rename_i heq
        simp only [List.cons.injEq] at heq
        obtain ⟨rfl, rfl⟩ := heq
-       simp [h])
+       simp [h, hcs])
+
+theorem splitlines_nosep_cons (c : Char) (cs l : List Char) (ls : List (List Char)) (h : isLineSep c = false)
+    (hcs : splitlines cs = l :: ls) : splitlines (c :: cs) = (c :: l) :: ls := by
+  have hr : c ≠ '\r' := by intro hc; subst hc; simp [isLineSep] at h
+  rw [splitlines.eq_def]
+  split
+  all_goals first
+    | (simp_all; done)
+    | (rename_i heq
+       simp only [List.cons.injEq] at heq
+       exact absurd heq.1 hr)
+    | (rename_i heq
+       simp only [List.cons.injEq] at heq
+       obtain ⟨rfl, rfl⟩ := heq
+       simp [h, hcs])
 
 theorem splitlines_line (A B : List Char) (h : ∀ c ∈ A, isLineSep c = false) :
     splitlines (A ++ '\n' :: B) = A :: splitlines B := by
   induction A with
   | nil => simpa using splitlines_nl B
   | cons a A ih =>
-    rw [List.cons_append, splitlines_nosep a _ (h a (by simp)), ih (fun c hc => h c (by simp [hc]))]
+    rw [List.cons_append]
+    exact splitlines_nosep_cons a _ A _ (h a (by simp)) (ih (fun c hc => h c (by simp [hc])))
 
 theorem splitlines_single (A : List Char) (hne : A ≠ []) (h : ∀ c ∈ A, isLineSep c = false) : splitlines A = [A] := by
   induction A with
   | nil => exact absurd rfl hne
   | cons a A ih =>
-    rw [splitlines_nosep a _ (h a (by simp))]
     cases A with
-    | nil => simp [splitlines]
-    | cons b A' => rw [ih (by simp) (fun c hc => h c (by simp [hc]))]
+    | nil => exact splitlines_nosep_nil a [] (h a (by simp)) (by simp [splitlines])
+    | cons b A' => exact splitlines_nosep_cons a _ _ _ (h a (by simp)) (ih (by simp) (fun c hc => h c (by simp [hc])))
 
 theorem splitlines_join (ls : List (List Char)) (tail : List Char) (h : ∀ l ∈ ls, ∀ c ∈ l, isLineSep c = false) :
     splitlines (ls.flatMap (· ++ ['\n']) ++ tail) = ls ++ splitlines tail := by
